@@ -10,4 +10,7 @@ def build(reg):
     keep += listing.add_listing(reg)  # what the listings show
     keep += [s for s in attrsacl.add_group_contains(reg) + attrsacl.add_attrsacl(reg) if "C08" in s.props]  # `in`, item assignment and attribute fall-through of a group wrapper never reach the raw group
     keep += metapaths.add_metapaths(reg)  # node path <-> reserved metadata directory
-    return {"verify": keep, "lemmas": [], "trusted": ["T7 wrapt.ObjectProxy: _self_* attributes are local to the wrapper; __wrapped__ is the raw object", "raw object: every method call on __wrapped__ is recorded as a RAW effect"] + metapaths.T_PATHS + listing.T_LIST + attrsacl.T_ATTRS + attrsacl.T_CONTAINS, "assumptions": contops.T_OPS}
+    from . import oneliners
+
+    keep = keep + oneliners.add_oneliners(reg, props=("C08",))  # one- and two-line delegations, verified against what other contracts bind them to
+    return {"verify": keep, "lemmas": [], "trusted": oneliners.T_ONE + ["T7 wrapt.ObjectProxy: _self_* attributes are local to the wrapper; __wrapped__ is the raw object", "raw object: every method call on __wrapped__ is recorded as a RAW effect"] + metapaths.T_PATHS + listing.T_LIST + attrsacl.T_ATTRS + attrsacl.T_CONTAINS, "assumptions": contops.T_OPS}
